@@ -213,7 +213,8 @@ def dmg_del_beyond_cb(pdb, rng, k=3):
 
 def dmg_junk_all(pdb, rng, k=3):
     done = []
-    for key, atoms in _pick_residues(pdb, rng, k):
+    # (a lysine / arginine with hydrogens and meaningless names keeps the matcher busy for minutes: not chosen)
+    for key, atoms in _pick_residues(pdb, rng, k, lambda key, atoms: key[3] not in ('LYS', 'ARG') or len(atoms) < 12):
         for i, a in enumerate(atoms):
             a['name'] = 'X%d' % (i + 1)
             a['damage'] = 'junk-all'
@@ -659,8 +660,8 @@ def effects(e):
     fx = {'judged'}
     if any(k not in orig for k in out):
         fx.add('readded')
-    if any(o['ptm'] for o in out.values()):
-        fx.add('marked')
+    if any(o['ptm'] for o in out.values()) and not (e['muts'] or e['mods']):
+        fx.add('marked')                      # (in a residue carrying a request the mark belongs to the atoms of the modification)
     if any(k not in out for k in orig):
         fx.add('removed')
     if any(k in orig and not o['ptm'] and o['name'] != name_in[k] for k, o in out.items()):
